@@ -275,6 +275,11 @@ func norm(n Node, inPath bool) Node {
 					steps = append(steps, s)
 					continue
 				}
+				if _, isGroup := s.(*Group); isGroup {
+					// likewise a grouping, which ends with its closing brace
+					steps = append(steps, s)
+					continue
+				}
 			}
 			switch s.(type) {
 			case *Str, *Num, *Bool, *Null:
